@@ -763,21 +763,14 @@ func (h *handler) addHandlerContext(messages ...*Message) {
 	for i, msg := range messages {
 		ctx := msg.Context()
 
-		if h.name != "" {
-			ctx = context.WithValue(ctx, handlerNameKey, h.name)
-		}
-		if h.publisherName != "" {
-			ctx = context.WithValue(ctx, publisherNameKey, h.publisherName)
-		}
-		if h.subscriberName != "" {
-			ctx = context.WithValue(ctx, subscriberNameKey, h.subscriberName)
-		}
-		if h.subscribeTopic != "" {
-			ctx = context.WithValue(ctx, subscribeTopicKey, h.subscribeTopic)
-		}
-		if h.publishTopic != "" {
-			ctx = context.WithValue(ctx, publishTopicKey, h.publishTopic)
-		}
+		// every value is set, the empty ones too: a message that reaches this handler with the context of
+		// another one (passed through, shared, or carried by a context-preserving Pub/Sub) must not keep
+		// reporting the other handler's values where this handler has none
+		ctx = context.WithValue(ctx, handlerNameKey, h.name)
+		ctx = context.WithValue(ctx, publisherNameKey, h.publisherName)
+		ctx = context.WithValue(ctx, subscriberNameKey, h.subscriberName)
+		ctx = context.WithValue(ctx, subscribeTopicKey, h.subscribeTopic)
+		ctx = context.WithValue(ctx, publishTopicKey, h.publishTopic)
 		messages[i].SetContext(ctx)
 	}
 }
